@@ -100,7 +100,7 @@ def ops_strategy(role):
         st.sampled_from(["write", "write", "write_fin", "reset", "ping", "key_update", "change_cid", "close", "dgram", "write_big"]),
         st.integers(0, 3),
     )
-    simple = st.sampled_from([("timer",), ("timer",), ("ack",), ("ack",), ("keyupdate",), ("src", 1), ("src", 0), ("dcid", 1), ("dcid", 3), ("dcid", 7), ("dup",), ("replay_old",)])
+    simple = st.sampled_from([("timer",), ("timer",), ("ack",), ("ack",), ("keyupdate",), ("src", 1), ("src", 0), ("dcid", 1), ("dcid", 3), ("dcid", 7), ("dup",), ("replay_old",)] + [("bad_pkt", ph, w) for ph in (0, 1) for w in ("tag", "payload", "pn", "first")])
     rawd = st.tuples(st.just("raw_dgram"), st.one_of(st.binary(max_size=40), st.sampled_from([b"", b"\x00", b"\x40", b"\xc0\x00\x00\x00\x01", b"\x80\x00\x00\x00\x00\x08" + bytes(8) + b"\x00" + b"\x00\x00\x00\x01"])))
     return st.lists(st.one_of(pkt, pkt, pkt, pkt, burst, app, simple, simple, rawd), min_size=1, max_size=14)
 
@@ -260,6 +260,14 @@ class Driver:
                 self.guard("receive_datagram(replay)", tk.deliver, self.first_dgram, self.src())
         elif kind == "raw_dgram":
             self.guard("receive_datagram(raw)", tk.deliver, bytes(op[1]), self.src())
+        elif kind == "bad_pkt":
+            # a well-addressed short-header packet that does not authenticate: either key-phase bit, damaged in the tag, the payload or the (protected)
+            # packet number / first byte - what line noise or an off-path sender produces at any moment, also in the middle of a key update
+            _, phase, where = op
+            pkt, pn = tk.build_packet(b"\x01" + bytes(20), pn=tk.pn + 1, key_phase=phase)
+            b = bytearray(pkt)
+            b[{"tag": -1, "payload": len(b) // 2, "pn": 1 + len(tk.dcid), "first": 0}[where]] ^= 0x04 if where == "first" else 0x55
+            self.guard("receive_datagram(unauthentic)", tk.deliver, bytes(b), self.src())
         elif kind == "app":
             self.app(op[1], op[2])
         self.exercise()
